@@ -257,8 +257,12 @@ CullCallOK(S, V, now, VolFirst(_), VolLast(_), maxPage) ==
 (* prefix = <<>> : integer keys; otherwise the code points of the prefix.  *)
 (***************************************************************************)
 IsDigit(c) == c \in 48..57
-InQueue(P, key) ==
-    IF P = <<>>
+\* prefix argument: <<>> = None (integer keys); <<-1>> = the empty text '' ; otherwise the code points of the prefix
+EmptyP == <<-1>>
+TextP(P0) == IF P0 = EmptyP THEN <<>> ELSE P0
+InQueue(P0, key) ==
+    LET P == TextP(P0) IN
+    IF P0 = <<>>
     THEN /\ key[1] = 0
          /\ SeqLT(<<0, 0, 0>>, key) /\ SeqLT(key, QIntMax)
     ELSE /\ key[1] = 1
@@ -277,14 +281,15 @@ DecDigits(d) == IF d = <<>> THEN <<>>
                 ELSE IF Last(d) = 48 THEN DecDigits(Front(d)) \o <<57>>
                 ELSE Front(d) \o <<Last(d) - 1>>
 
-NextKey(P, key, back) ==
-    IF P = <<>>
+NextKey(P0, key, back) ==
+    LET P == TextP(P0) IN
+    IF P0 = <<>>
     THEN IF back THEN (IF key[3] + 1 = QBase THEN <<0, key[2] + 1, 0>> ELSE <<0, key[2], key[3] + 1>>)
                  ELSE (IF key[3] = 0 THEN <<0, key[2] - 1, QBase - 1>> ELSE <<0, key[2], key[3] - 1>>)
     ELSE LET d == SubSeq(key, Len(P) + 3, Len(key))
          IN <<1>> \o P \o <<45>> \o (IF back THEN IncDigits(d) ELSE DecDigits(d))
 
-FirstKey(P) == IF P = <<>> THEN QIntStart ELSE <<1>> \o P \o <<45>> \o QDigits
+FirstKey(P0) == IF P0 = <<>> THEN QIntStart ELSE <<1>> \o TextP(P0) \o <<45>> \o QDigits
 
 QueueIdx(rows, P) == {i \in DOMAIN rows : InQueue(P, rows[i].key)}
 \* index of the extreme row of queue P: back = largest key
